@@ -50,6 +50,8 @@ EXTRA_DESC = {
     # fancy assignment broadcasts them to the declared shape (2,)
     "b": ("ex_b", (2,), np.float64),
     # unsigned integer fields (dtype kind "u": integers too -- blank value 0)
+    # an object field with non-scalar entries (a pair of arbitrary objects per solution)
+    "t": ("ex_t", (2,), object),
     "u": ("ex_u", (), np.uint32),
     "w": ("ex_w", (3,), np.uint8),
 }
@@ -73,6 +75,10 @@ def extra_value(c, tok):
         return Tok(tok) if tok % 2 == 0 else {"t": tok}
     if c == "b":
         return np.full(2, tok * 0.5)
+    if c == "t":
+        v = np.empty(2, dtype=object)
+        v[0], v[1] = f"tag{tok}", tok
+        return v
     if c == "u":
         return np.uint32(tok)
     if c == "w":
@@ -727,12 +733,15 @@ class Run:
                                    f"{where}: the elite stored in cell {c} is not found by querying its own measures "
                                    f"{[str(x) for x in rows[c]['meas']]} passed as {label} "
                                    f"(occupied={bool(occ2[k])}, index={int(data2['index'][k])}; archive dtype {self.dt})")
-        k = len(cells) // 2
-        o1, d1 = self.archive.retrieve_single(ms[k].tolist())
-        if not o1 or int(d1["index"]) != cells[k]:
-            return self.F_("C07", "oracle",
-                           f"{where}: retrieve_single does not find the elite of cell {cells[k]} through its own measures "
-                           f"passed as a list (occupied={bool(o1)}, index={int(d1['index'])}; archive dtype {self.dt})")
+        # one by one (a batch of one may take another code path than a large batch, e.g. chunked searches)
+        step = max(1, len(cells) // 10)
+        for k in range(0, len(cells), step):
+            o1, d1 = self.archive.retrieve_single(ms[k].tolist())
+            if not o1 or int(d1["index"]) != cells[k]:
+                return self.F_("C07", "oracle",
+                               f"{where}: retrieve_single does not find the elite of cell {cells[k]} through its own "
+                               f"measures {[str(x) for x in rows[cells[k]]['meas']]} passed as a list "
+                               f"(occupied={bool(o1)}, index={int(d1['index'])}; archive dtype {self.dt})")
         return None
 
     def do_retrieve(self, qs, where, single=False):
@@ -762,7 +771,8 @@ class Run:
                     return self.F_("C07", "oracle", f"{where}: query {k} maps to occupied cell {c} but occupied=False")
                 for name in full:
                     a, b = data[name][k], full[name][j]
-                    same = (a == b) if full[name].dtype == object else np.array_equal(np.asarray(a), np.asarray(b))
+                    same = ((a == b) if not isinstance(a, np.ndarray) else np.array_equal(a, b)) \
+                        if full[name].dtype == object else np.array_equal(np.asarray(a), np.asarray(b))
                     if not same:
                         return self.F_("C07", "oracle", f"{where}: query {k} (cell {c}) field {name} = {a!r} ≠ stored {b!r}")
             else:
@@ -771,7 +781,7 @@ class Run:
                 for name in full:
                     a = data[name][k]
                     if full[name].dtype == object:
-                        ok = a is None
+                        ok = a is None or (isinstance(a, np.ndarray) and all(x is None for x in a.ravel()))
                     elif name == "index":
                         ok = int(a) == -1
                     elif np.issubdtype(full[name].dtype, np.integer):
@@ -934,6 +944,18 @@ def gen_geometry(rng, kinds=("grid", "cvt", "sb"), max_cells=60):
     return case
 
 
+def shift_geometry(case, off):
+    """Move the whole measure space by `off` in every dimension (a space far from the origin relative to its size:
+    the squared norms of the centroids then dwarf their spacing)."""
+    off = F(off)
+    case["lo"] = [q(fr(x) + off) for x in case["lo"]]
+    case["hi"] = [q(fr(x) + off) for x in case["hi"]]
+    if "cvt" in case:
+        case["cvt"]["cents"] = [[q(fr(x) + off) for x in c] for c in case["cvt"]["cents"]]
+        case["cvt"]["kd"] = False
+        case["cvt"]["chunk"] = case["cvt"]["chunk"] or 2
+
+
 def gen_meas(rng, case, pool=None, boundary=False):
     """A measure vector strictly inside a cell (quarter points) or, optionally, on/outside the range."""
     if pool and rng.random() < 0.7:
@@ -1030,8 +1052,12 @@ def gen_case(rng, profile="mixed", kinds=("grid", "cvt", "sb"), cma=False, dtype
     case["dtype"] = dtype or rng.choice(["f64", "f64", "f32"])
     if profile == "collide":
         case["dtype"] = "f32"
-    case["layout"] = rng.choice(["", "s", "v", "o", "sv", "svo", "m", "om", "b", "sb", "u", "uw", "ow", "su"])
+    case["layout"] = rng.choice(["", "s", "v", "o", "sv", "svo", "m", "om", "b", "sb", "u", "uw", "ow", "su", "t", "ot"])
     case["forms"] = gen_forms(rng)
+    if case["kind"] == "cvt" and profile in ("mixed", "percell") and rng.random() < 0.3:
+        # chunked brute-force search far from the origin (2^26 in float64, 2^12 in float32: quarter points of the
+        # cells are still exactly representable)
+        shift_geometry(case, 2**26 if meas_dtype(case) == "f64" else 2**12)
     if profile == "collide" and case["forms"]["dtype"] == "dictmix":
         # float64 objectives (which must stay distinct) next to float32 measures: values that collide in float32
         # only tell the two precisions apart if nothing about the objective is kept in the measures' precision
